@@ -77,6 +77,40 @@ func mapUpdatesOfField(fns []*ssa.Function, f *types.Var) []*ssa.MapUpdate {
 	return out
 }
 
+// tableStore is one place where an entry is put into the map held in field f: the MapUpdate itself or,
+// when it sits in a table helper that is given the map (mapParamOfField), each call of that helper —
+// with the key and the value as seen at that place.
+type tableStore struct {
+	mu       *ssa.MapUpdate
+	at       ssa.Instruction // mu, or the call of the helper
+	key, val ssa.Value
+}
+
+func tableStoresOfField(fns []*ssa.Function, f *types.Var) []tableStore {
+	var out []tableStore
+	for _, mu := range mapUpdatesOfField(fns, f) {
+		g := mu.Parent()
+		if _, g2, ok := fieldLoad(stripNoParam(mu.Map)); (ok && g2 == f) || !mapParamOfField(mu.Map, f, 0) {
+			out = append(out, tableStore{mu: mu, at: mu, key: mu.Key, val: mu.Value})
+			continue
+		}
+		arg := func(c ssa.CallInstruction, v ssa.Value) ssa.Value {
+			// through conversions to the helper's parameter (`table[string(topic)] = h`)
+			sv := stripNoParam(v)
+			if p, ok := sv.(*ssa.Parameter); ok && p.Parent() == g {
+				if i := paramIndex(p); i >= 0 && i < len(c.Common().Args) {
+					return c.Common().Args[i]
+				}
+			}
+			return v
+		}
+		for _, c := range staticCallersOf[g] {
+			out = append(out, tableStore{mu: mu, at: c.(ssa.Instruction), key: arg(c, mu.Key), val: arg(c, mu.Value)})
+		}
+	}
+	return out
+}
+
 // fmStore is a store into the map held in a struct field: `x.f[k] = v` itself, or a call of a helper
 // that stores into a map parameter for which this call passes x.f (`recordOnce(x.f, …, v, k)`).
 type fmStore struct {
@@ -334,7 +368,7 @@ func continuationFns(sl *Slicer, fns []*ssa.Function) map[*ssa.Function]ssa.Call
 // enclosingChain returns fn and its lexically enclosing functions.
 func enclosingChain(fn *ssa.Function) []*ssa.Function {
 	var out []*ssa.Function
-	for f := fn; f != nil; f = f.Parent() {
+	for f, i := fn, 0; f != nil && i < 24; f, i = enclosingFn(f), i+1 {
 		out = append(out, f)
 	}
 	return out
@@ -361,6 +395,47 @@ func structFieldValue(v ssa.Value, f *types.Var, depth int) ssa.Value {
 		}
 	case *ssa.Parameter:
 		return nil
+	case *ssa.Extract:
+		// `hdr, err := decodeHeader(…)`: the struct a transparent helper returns together with a nil
+		// error (or true) — its single successful return
+		cl, ok := x.Tuple.(*ssa.Call)
+		if !ok {
+			return nil
+		}
+		g := cl.Call.StaticCallee()
+		if g == nil || helperSite[g] != cl {
+			return nil
+		}
+		res := g.Signature.Results()
+		last := res.Len() - 1
+		if x.Index >= last {
+			return nil
+		}
+		isErr := types.Identical(res.At(last).Type(), types.Universe.Lookup("error").Type())
+		var succ *ssa.Return
+		for _, in := range instrsOf(g) {
+			r, isR := in.(*ssa.Return)
+			if !isR {
+				continue
+			}
+			lv := retResult(r, last)
+			if isErr && !isNilConst(lv) {
+				continue
+			}
+			if !isErr {
+				if k, isK := lv.(*ssa.Const); isK && k.Value != nil && k.Value.String() == "false" {
+					continue
+				}
+			}
+			if succ != nil {
+				return nil
+			}
+			succ = r
+		}
+		if succ == nil {
+			return nil
+		}
+		return structFieldValue(retResult(succ, x.Index), f, depth+1)
 	case *ssa.Call:
 		// a constructor helper: an own function with a single return of a struct built from its
 		// parameters — the field's value is the corresponding argument of this call
@@ -397,6 +472,9 @@ func structFieldValue(v ssa.Value, f *types.Var, depth int) ssa.Value {
 		}
 		if _, ok := si.(*ssa.Const); ok {
 			return inner
+		}
+		if helperSite[g] == x {
+			return inner // a transparent helper: its body is read as part of the caller
 		}
 		return nil
 	}
